@@ -19,7 +19,7 @@ VARIANTS = {
     "InvalidProtocol": {"payload": ["tested", "tested"], "where": ["common::types::*"], "min_sites": 1},
     "UnexpectedProtocol": {"payload": ["tested"], "where": ["v3::connect::*", "v5::connect::*"], "min_sites": 1},
     "InvalidHeader": {"payload": [], "where": ["v3::packet::*", "v5::packet::*"], "min_sites": 1},
-    "InvalidVarByteInt": {"payload": [], "where": ["common::utils::*", "v5::types::*", "<v5::types::*", "*::poll"], "min_sites": 1},
+    "InvalidVarByteInt": {"payload": [], "where": ["common::utils::*", "v5::types::*", "<v5::types::*", "*::poll", "common::poll::*"], "min_sites": 1},
     "InvalidTopicName": {"payload": ["tested"], "where": ["common::types::*", "<common::types::*"], "min_sites": 1},
     "InvalidTopicFilter": {"payload": ["tested"], "where": ["common::types::*", "<common::types::*"], "min_sites": 1},
     "InvalidString": {"payload": [], "where": ["common::utils::*", "common::types::*"], "min_sites": 1},
@@ -52,13 +52,7 @@ ORDER_PAIRS = [
     ("v5::connect::Connect::decode_with_protocol", "raise:UnexpectedProtocol", "read:any"),
     ("v3::connect::Connect::decode_with_protocol", "raise:InvalidConnectFlags", "call:common::utils::read_u16"),
     ("v5::connect::Connect::decode_with_protocol", "raise:InvalidConnectFlags", "call:common::utils::read_u16"),
-    # duplicate detection precedes reading / validating the value
-    ("v5::types::PropertyValue::decode_bool", "raise:DuplicatedProperty", "read:any"),
-    ("v5::types::PropertyValue::decode_u16", "raise:DuplicatedProperty", "read:any"),
-    ("v5::types::PropertyValue::decode_u32", "raise:DuplicatedProperty", "read:any"),
-    ("v5::types::PropertyValue::decode_string", "raise:DuplicatedProperty", "read:any"),
-    ("v5::types::PropertyValue::decode_bytes", "raise:DuplicatedProperty", "read:any"),
-    ("v5::types::PropertyValue::decode_topic_name", "raise:DuplicatedProperty", "read:any"),
+    # (duplicate detection before any read is decided by H-dup, which evaluates each decoder with the target already set)
     ("v5::types::PropertyValue::decode_bool", "raise:DuplicatedProperty", "raise:InvalidByteProperty"),
     # UTF-8 validation (inside read_string) before topic validation
     ("v5::types::PropertyValue::decode_topic_name", "call:common::utils::read_string", "call:<common::types::TopicName as core::convert::TryFrom<alloc::string::String>>::try_from"),
